@@ -30,7 +30,7 @@ pub open spec fn sig_at(d: Seq<u8>, p: int, sig: u32) -> bool { inb(d, p, 4) && 
 impl ZipFileData {
 //@use zfd_enclosed_name nobody
 //@use zfd_file_name_sanitized nobody
-//@use zfd_unix_mode nobody
+//@use zfd_unix_mode
 }
 //@item src/read.rs | enum CryptoReader
 //@item src/read.rs | enum ZipFileReader
